@@ -99,6 +99,10 @@ def judge(prog: Any, ref: Any, run: dict[str, Any], info: dict[str, Any]) -> lis
         for sid, (hd, new) in last_by.items():
             if hd not in REGULAR:
                 continue
+            if hd == "StartStage" and new != "RUNNING":
+                # StartStage's give-up path ("exceeded max retries waiting for upstream stages" -> TERMINAL) is a
+                # time-out, not one of the regular start / complete / fail / skip / cancel steps the property names
+                continue
             if sid in by_id:
                 k, v = by_id[sid]
                 got = (full.get("stages") or {}).get(sid, {}).get("status")
